@@ -83,6 +83,16 @@ fn build(case: &Value, rng: &mut impl RngCore) -> Option<Built> {
         "ga-bytes" => v
             .set_assertion_extensions(Some(get_assertion::SignedExtensionOutputs { hmac_secret: Some(rnd(rng, 64).into()) }))
             .ok()?,
+        // registration outputs carrying the hmac-secret-mc member only / both members
+        "mc-mconly" => v
+            .set_make_credential_extensions(Some(make_credential::SignedExtensionOutputs { hmac_secret: None, hmac_secret_mc: Some(rnd(rng, 48).into()) }))
+            .ok()?,
+        "mc-mcboth" => v
+            .set_make_credential_extensions(Some(make_credential::SignedExtensionOutputs { hmac_secret: Some(true), hmac_secret_mc: Some(rnd(rng, 48).into()) }))
+            .ok()?,
+        "mc-false" => v
+            .set_make_credential_extensions(Some(make_credential::SignedExtensionOutputs { hmac_secret: Some(false), hmac_secret_mc: None }))
+            .ok()?,
         // the setters called more than once: whatever the second call means, the ED bit must describe the result
         "mc-then-none" => v
             .set_make_credential_extensions(Some(make_credential::SignedExtensionOutputs { hmac_secret: Some(true), hmac_secret_mc: None }))
@@ -166,10 +176,23 @@ pub fn main(args: &Args) {
             if let Some(ext) = &ad.ext {
                 e["extlen"] = json!(cbor_len(ext));
                 let m = ext.as_map();
+                let kind = case["ext"].as_str().unwrap();
+                if ["mc-mconly", "mc-mcboth", "mc-false"].contains(&kind) {
+                    let get = |name: &str| m.and_then(|m| m.iter().find(|(k, _)| k.as_text() == Some(name)).map(|(_, v)| v.clone()));
+                    let ok = match kind {
+                        "mc-mconly" => get("hmac-secret").is_none() && get("hmac-secret-mc").and_then(|v| v.as_bytes().map(|b| b.len())) == Some(48),
+                        "mc-mcboth" => get("hmac-secret").and_then(|v| v.as_bool()) == Some(true) && get("hmac-secret-mc").and_then(|v| v.as_bytes().map(|b| b.len())) == Some(48),
+                        _ => get("hmac-secret").and_then(|v| v.as_bool()) == Some(false) && get("hmac-secret-mc").is_none(),
+                    };
+                    e["extok"] = json!(ok);
+                    e["extlen"] = json!(cbor_len(ext));
+                }
                 let first_bool = ["mc-bool", "mc-then-none", "none-then-mc"].contains(&case["ext"].as_str().unwrap());
                 let either = ["mc-then-ga", "ga-then-empty"].contains(&case["ext"].as_str().unwrap());
+                if !["mc-mconly", "mc-mcboth", "mc-false"].contains(&kind) {
                 e["extok"] = json!(m.map(|m| m.len() == 1 && m[0].0.as_text() == Some("hmac-secret")
                     && ((first_bool || either) && m[0].1.as_bool() == Some(true) || (!first_bool || either) && m[0].1.as_bytes().map(|b| b.len()) == Some(64))).unwrap_or(false));
+                }
             }
         }
         // round trip
